@@ -94,6 +94,8 @@ fn alphabet(multi_any: bool, rich: bool) -> Vec<Tok> {
         v.push(Tok { label: "ESC-c".into(), bytes: b"\x1bc".to_vec(), text: false });
         v.push(Tok { label: "DCS".into(), bytes: b"\x1bPqx\x1b\\".to_vec(), text: false });
         v.push(Tok { label: "\"\u{e9}\"".into(), bytes: "\u{e9}".as_bytes().to_vec(), text: true });
+        v.push(Tok { label: "\"\u{1f600}\"".into(), bytes: "\u{1f600}".as_bytes().to_vec(), text: true });
+        v.push(Tok { label: "DEL".into(), bytes: vec![0x7f], text: true });
     }
     v
 }
